@@ -173,6 +173,22 @@ def run_shard(mode, cfgs, sub_seed):
                     cases.append((g, "none-key"))
                 for given, note in cases:
                     reopen_and_judge(res, FHS, root, created, given, populated, cb, note)
+                # the same configuration written the way another implementation / a person would (other key order,
+                # comments, an extra key): still the pinned configuration
+                ypath = os.path.join(root, "hashstore.yaml")
+                original = open(ypath).read()
+                import yaml as _yaml
+                y = _yaml.safe_load(original)
+                alt = "# written by another HashStore implementation\n" + "".join(
+                    f"{k}: {_yaml.safe_dump(y[k], default_flow_style=True).strip().splitlines()[0]}\n"
+                    for k in reversed(list(y))) + "store_extra_key: 1\n"
+                if _yaml.safe_load(alt).get("store_depth") == y["store_depth"]:
+                    with open(ypath, "w") as fh:
+                        fh.write(alt)
+                    reopen_and_judge(res, FHS, root, created, props(root, d, w, a, ns), populated, cb, "same:foreign-yaml")
+                    reopen_and_judge(res, FHS, root, created, props(root, d, w % 4 + 1, a, ns), populated, cb, "single:w:foreign-yaml")
+                    with open(ypath, "w") as fh:
+                        fh.write(original)
                 # data directories without configuration file
                 os.remove(os.path.join(root, "hashstore.yaml"))
                 for given, note in ((props(root, d, w, a, ns), "no-yaml:same"), (props(root, 2, 2, "MD5", ns), "no-yaml:other")):
